@@ -53,7 +53,7 @@ func verifC04Same(a, b verifC04Obs) bool {
 // must be the "latest event per subject wins" state, and re-indexing must not change it.
 // family 0: one contact (enqueue, mark sent, block, unblock)   1: contact-request switch (enable, disable, reset)
 // family 2: groups (join g1, leave g1, join g2)
-func VerifC04Converge(family, steps int) {
+func VerifC04Converge(family, steps, incremental int) {
 	ctx := verif_background()
 	m, ss := verifAccountStore("acct")
 	_, pk := verifFreshKey()
@@ -128,11 +128,23 @@ func VerifC04Converge(family, steps int) {
 	verif_assert(replica.UpdateIndex(rlog, nil) == nil, "C04: replica indexes the log")
 	or := verifC04Observe(replica, raw, g1.PublicKey, g2.PublicKey)
 	verif_assert(verifC04Same(ow, or), "C04.order: replicas holding the same entries expose the same state whatever the arrival order")
+
+	// third replica: the entries arrive in two batches -- first a FREE subset of the log (entries of different devices
+	// are concurrent branches, so a view need not be a prefix), then everything; the index is updated after each batch
+	if incremental == 1 {
+		full := verif_logCopy(verif_storeLog(&m.BaseStore))
+		part := verif_logView(full)
+		late := newMetadataIndex(ctx, m.group, m.memberDevice, ss)(m.group.PublicKey).(*metadataStoreIndex)
+		verif_assert(late.UpdateIndex(part, nil) == nil, "C04: replica indexes a partial view")
+		verif_assert(late.UpdateIndex(full, nil) == nil, "C04: replica indexes the completed log")
+		ol := verifC04Observe(late, raw, g1.PublicKey, g2.PublicKey)
+		verif_assert(verifC04Same(ow, ol), "C04.batches: a replica that received the entries in two batches exposes the same state as one that received them at once")
+	}
 	verif_reach("C04.converge.ok")
 }
 
 func VerifC04Witness() {
-	VerifC04Converge(1, 2)
+	VerifC04Converge(1, 2, 0)
 	verif_assert(false, "C04.witness: reachable")
 }
 
